@@ -30,7 +30,7 @@ impl<'a> Visitor for V<'a> {
                 return Err(format!("{d}: size() = {} but the encoding has {} bytes", post.size, post.enc.len()));
             }
         }
-        if matches!(cx.fam(), FamId::Var | FamId::Wide | FamId::Tiny | FamId::Mid) {
+        if matches!(cx.fam(), FamId::Var | FamId::Wide | FamId::Tiny | FamId::Mid | FamId::Nano | FamId::Big) {
             return Ok(()); // exact refusal is claimed for 64-byte signatures only
         }
         if let Some(op) = cx.op {
@@ -240,7 +240,7 @@ impl Property for C09 {
                 })
             })
         });
-        let ex = [FamId::K256, FamId::Var].into_iter().flat_map(move |f| history::exhaustive(f, if quick { 1 } else { 2 })).map(Case::Hist);
+        let ex = [FamId::K256, FamId::Var].into_iter().flat_map(move |f| history::exhaustive(f, if quick { 1 } else { 2 })).chain(history::depth1_rest(&[FamId::K256, FamId::Var])).map(Case::Hist);
         // custom scheme with long signatures: every signature length class 64..=322 through the builder
         // (tiny content: the outer header grows by two bytes once the signature is included) and one update
         let wide = (0..37u8).flat_map(|u| {
